@@ -134,12 +134,13 @@ def run_level(ctx, stop_first=False):
         dict(dev="bar", cur=None, B=0.5, opts=dict(dt_init=5e-3, adaptive=False)),
         dict(dev="bar", cur={"source": 4.0, "drain": -4.0}, B=0.4, opts=dict(dt_init=2e-3, dt_max=2e-2, adaptive=True, adaptive_window=2)),
     ]
+    cfgs.append(dict(dev="ring", cur=None, B=0.5, lam=0.4, opts=dict(dt_init=5e-3, adaptive=False, include_screening=True, screening_tolerance=1e-3)))
     if not ctx.quick:
         cfgs.append(dict(dev="cross4", cur={"source": 5.0, "drain": -2.0, "top": -3.5, "bottom": 0.5}, B=0.3, opts=dict(dt_init=5e-3, adaptive=False)))
         cfgs.append(dict(dev="bar_hole", cur={"source": 2.0, "drain": -2.0}, B=0.7, opts=dict(dt_init=5e-3, adaptive=False, include_screening=True, screening_tolerance=1e-3)))
     shifts = [(0.3, 0.0), (0.0, -0.5), (1.1, 0.7)]
     for cfg in cfgs:
-        dev = zoo.make_device(cfg["dev"], ctx.rng, max_edge_length=1.0)
+        dev = zoo.make_device(cfg["dev"], ctx.rng, max_edge_length=1.0, lam=cfg.get("lam", 2.0))
         results = []
         for (cx, cy) in [(0.0, 0.0)] + shifts:
             out = os.path.join(str(ctx.work), f"c04_{cx}_{cy}.h5")
@@ -167,6 +168,7 @@ def run_level(ctx, stop_first=False):
             for fa, fb in zip(base, other):
                 da, db = fa["data"], fb["data"]
                 errs = dict(
+                    A_induced=float(np.abs(da["induced_vector_potential"] - db["induced_vector_potential"]).max()),
                     abs_psi=float(np.abs(np.abs(da["psi"]) - np.abs(db["psi"])).max()),
                     Js=float(np.abs(da["supercurrent"] - db["supercurrent"]).max()),
                     Jn=float(np.abs(da["normal_current"] - db["normal_current"]).max()),
@@ -175,8 +177,11 @@ def run_level(ctx, stop_first=False):
                 ctx.case((cfg["dev"], cx, cy, fa["step"]), nontrivial=fa["step"] > 0)
                 ctx.count("frame_pairs")
                 w = max(errs.values())
-                ctx.tol("run-level gauge-invariant difference", w, 1e-8)
-                if w > 1e-8:
+                # a screened step ends when an error drops below a tolerance, so a rounding-level difference can in
+                # principle move one iteration across the threshold: allow 1e-6 there (a gauge-dependent loop gives 1e-3)
+                tolr = 1e-6 if cfg["opts"].get("include_screening") else 1e-8
+                ctx.tol(f"run-level gauge-invariant difference (screening={bool(cfg['opts'].get('include_screening'))})", w, tolr)
+                if w > tolr:
                     ctx.fail("gauge-run-differs", f"step {fa['step']}: observables differ between gauges: {errs}", dict(tag, step=fa["step"], errs=errs))
                     first = first or dict(key="gauge-run-differs", what=str(errs), **tag)
                     if stop_first:
